@@ -22,7 +22,16 @@ func main() {
 	repo := flag.String("repo", "/repo", "repository root")
 	out := flag.String("out", "", "output directory")
 	digest := flag.String("digest", "", "write per-declaration source digests (JSON) to this file and exit")
+	api := flag.String("api", "", "write the API surface (every function and method, JSON; apisurface.go) to this file ('-' = stdout) and exit")
+	anchorsFile := flag.String("anchors", "", "with -api: properties.jsonl whose anchors.files define the anchored files")
 	flag.Parse()
+	if *api != "" {
+		if err := writeAPISurface(*repo, *anchorsFile, *api); err != nil {
+			fmt.Fprintln(os.Stderr, err)
+			os.Exit(1)
+		}
+		return
+	}
 	if *digest != "" {
 		if err := writeDigests(*repo, *digest); err != nil {
 			fmt.Fprintln(os.Stderr, err)
